@@ -195,6 +195,51 @@ func checkC19(P *Prog, r *Result) {
 	})
 	r.floor("C19/no-schema-or-input-writes", 80)
 
+	// (a') the write-effect rule treats what a node writes through its ValPtr as "the destination". That holds
+	// only if every value ever stored into a node context's ValPtr (a child's destination pointer) points into the
+	// destination: never into schema-owned memory (an element of a slice-valued Default) or into the input.
+	nvp := 0
+	for _, fn := range fns {
+		eachInstr(fn, func(_ *ssa.BasicBlock, _ int, in ssa.Instruction) {
+			var val ssa.Value
+			switch x := in.(type) {
+			case *ssa.Store:
+				if _, f := fieldVar(x.Addr); f != nil && sameField(f, R.FValPtr) {
+					val = x.Val
+				}
+			default:
+				// the destPtr argument of the context constructors
+				if ci := callOf(in); ci != nil && ci.static != nil {
+					if _, isCtor := P.sharedCatchAnalysis().ctors[ci.static]; isCtor {
+						for i, prm := range ci.static.Params {
+							if i < len(ci.args()) && P.paramStoredInto(ci.static, prm, R.FValPtr) {
+								val = ci.args()[i]
+							}
+						}
+					}
+				}
+			}
+			if val == nil {
+				return
+			}
+			nvp++
+			c := fmt.Sprintf("%s#ValPtr@%d", fname(fn), nvp)
+			var bad []string
+			for _, rt := range P.rootsOf(val) {
+				cl := P.classifyIn(fn, rt)
+				if cl.class == mcSchema || cl.class == mcInput || cl.class == mcGlobal {
+					bad = append(bad, fmt.Sprintf("%s [%s]", cl.class, cl.rt))
+				}
+			}
+			if len(bad) > 0 {
+				r.bad("C19/child-destination", c, P.ipos(in), "a node is handed a destination pointer into memory that is not the destination ("+strings.Join(uniqSorted(bad), "; ")+"): its defaults, coerced values, catch values and transforms are written there")
+			} else {
+				r.ok("C19/child-destination", c, P.ipos(in), "the destination pointer handed on derives from the destination only")
+			}
+		})
+	}
+	r.floor("C19/child-destination", 6)
+
 	// (b) default-not-aliased
 	nb := 0
 	for _, fn := range fns {
@@ -575,4 +620,21 @@ func typeHasRefs(t types.Type, depth int) bool {
 		return typeHasRefs(u.Elem(), depth+1)
 	}
 	return true
+}
+
+// paramStoredInto: the constructor stores its parameter prm into field f of the object it builds.
+func (P *Prog) paramStoredInto(ctor *ssa.Function, prm *ssa.Parameter, f *types.Var) bool {
+	found := false
+	for _, u := range P.allUnits(ctor) {
+		u.with(func() {
+			eachInstr(u.fn, func(_ *ssa.BasicBlock, _ int, in ssa.Instruction) {
+				if st, ok := in.(*ssa.Store); ok {
+					if _, sf := fieldVar(st.Addr); sf != nil && sameField(sf, f) && cv(st.Val) == ssa.Value(prm) {
+						found = true
+					}
+				}
+			})
+		})
+	}
+	return found
 }
